@@ -3,6 +3,8 @@
 package server
 
 import (
+	"bytes"
+	"context"
 	"encoding/json"
 	"fmt"
 	"io"
@@ -22,6 +24,7 @@ import (
 	"tunnox-core/internal/protocol/httptypes"
 	"tunnox-core/internal/protocol/session"
 	"tunnox-core/internal/protocol/session/httpproxy"
+	"tunnox-core/internal/stream"
 	gen "tunnox-core/internal/verifc05gen"
 	vk "tunnox-core/internal/verifkit"
 )
@@ -46,6 +49,8 @@ type c05Wire struct {
 	off    int
 	closed bool
 	wrote  int64
+	keep   bool // keep what the server writes (replies) in out
+	out    []byte
 	remote vk.FakeAddr
 }
 
@@ -69,6 +74,9 @@ func (w *c05Wire) Write(p []byte) (int, error) {
 		return 0, net.ErrClosed
 	}
 	w.wrote += int64(len(p))
+	if w.keep {
+		w.out = append(w.out, p...)
+	}
 	return len(p), nil
 }
 func (w *c05Wire) Close() error {
@@ -98,7 +106,11 @@ func c05Pump(n *miniNode, remote string, data []byte) (res c05PumpRes) {
 		k := c05WireSeq.Add(1)
 		remote = fmt.Sprintf("10.%d.%d.%d:41000", 100+(k>>16)&63, (k>>8)&255, k&255)
 	}
-	w := &c05Wire{data: data, remote: vk.FakeAddr{Net: "tcp", Str: remote}}
+	return c05PumpW(n, &c05Wire{data: data, remote: vk.FakeAddr{Net: "tcp", Str: remote}})
+}
+
+func c05PumpW(n *miniNode, w *c05Wire) (res c05PumpRes) {
+	data := w.data
 	stc, err := n.SM.AcceptConnection(w, w)
 	if err != nil {
 		res.Panic = "harness: accept failed: " + err.Error()
@@ -824,4 +836,214 @@ func TestVerifC05Storm(t *testing.T) {
 	run.Floor("completed", 1)
 	run.Floor("phases_with_concurrent_dispatches", int64(len(kinds)-2))
 	run.Floor("storm_dispatches", int64(len(kinds)*G*perPhase*9/10))
+}
+
+// ---------------------------------------------------------------------------------
+// (5) two-step pre-auth sequences through the real auth handler
+// ---------------------------------------------------------------------------------
+
+func c05Replies(out []byte) []*packet.HandshakeResponse {
+	var rs []*packet.HandshakeResponse
+	sp := stream.NewStreamProcessor(bytes.NewReader(out), io.Discard, context.Background())
+	defer sp.Close()
+	for i := 0; i < 8; i++ {
+		p, _, err := sp.ReadPacket()
+		if err != nil || p == nil {
+			break
+		}
+		if p.PacketType&0x3F == packet.HandshakeResp {
+			var r packet.HandshakeResponse
+			if json.Unmarshal(p.Payload, &r) == nil {
+				rs = append(rs, &r)
+			}
+		}
+	}
+	return rs
+}
+
+func TestVerifC05HandshakeSequences(t *testing.T) {
+	vk.Quiet()
+	run := vk.Start(t, "C05", "handshake-seq")
+	defer run.Finish()
+	run.Rule("a client id obtained by anonymous registration on the same server; then per case a fresh unauthenticated connection sends, in one burst, handshake step 1 naming that id (the real ServerAuthHandler stores a challenge on the connection and replies with it) followed by step 2 with a hostile value: challenge_response = valid hex of every length 0..N (quick N=300 plus {511,512,513,1024,4096,65536,1<<20}; thorough every length to 4096), upper/mixed case, odd length, non-hex, whitespace, NUL, unicode, JSON-escaped; hostile values in every other string field of step 2 and of step 1; step 2 without step 1, repeated step 2, control/tunnel connection types, target client online/offline; interactively: the correct HMAC upper-cased, extended, truncated, padded. Oracle: no panic (recovered in the read loop replica) / no process death (WAL). distinct = (variant class, connection type); non-trivial = the server issued a challenge on that connection before the hostile step (counted from its replies)")
+	node := c05NewNode(t)
+	defer node.Close()
+	online := node.NewClient("")
+	offline := node.NewClient("")
+	offID, offSecret := offline.ClientID, offline.Secret
+	offline.CloseByPeer()
+	js := func(v any) []byte { b, _ := json.Marshal(v); return b }
+	r := run.Rand("vals")
+	hexOf := func(n int, upper bool) string {
+		const lo, up = "0123456789abcdef", "0123456789ABCDEF"
+		b := make([]byte, n)
+		for i := range b {
+			if upper {
+				b[i] = up[r.Intn(16)]
+			} else {
+				b[i] = lo[r.Intn(16)]
+			}
+		}
+		return string(b)
+	}
+	type variant struct {
+		class string
+		resp  string
+	}
+	var vs []variant
+	maxAll := run.Pick(300, 4096)
+	for n := 0; n <= maxAll; n++ {
+		vs = append(vs, variant{"hex-len", hexOf(n, false)})
+	}
+	for _, n := range []int{511, 512, 513, 1024, 4096, 65536, 1 << 20} {
+		vs = append(vs, variant{"hex-long", hexOf(n, false)})
+	}
+	for _, n := range []int{2, 62, 64, 66, 128, 1000} {
+		vs = append(vs, variant{"hex-upper", hexOf(n, true)}, variant{"hex-mixed", hexOf(n/2, true) + hexOf(n-n/2, false)})
+	}
+	for _, x := range []string{"zz", "0x" + hexOf(64, false), hexOf(63, false) + "g", " " + hexOf(64, false), hexOf(64, false) + "\n", hexOf(32, false) + "\x00" + hexOf(31, false),
+		strings.Repeat("é", 32), strings.Repeat("\u0000", 64), strings.Repeat("f", 64) + strings.Repeat(" ", 64), "-" + hexOf(63, false), strings.Repeat("00", 33), strings.Repeat("ff", 4096)} {
+		vs = append(vs, variant{"non-hex", x})
+	}
+	hostileStr := []string{"", "x", strings.Repeat("A", 70000), "\x00", "\xff\xfe", "control\x00", "3.0\n", "../../etc", strings.Repeat("%s", 50), "🙂", hexOf(200, false)}
+
+	serve := func(class, ctype string, id int64, data []byte, wantChallenge bool) bool {
+		run.Case("handshake-seq|"+class+"|"+ctype, map[string]any{"client_id_kind": map[bool]string{true: "online", false: "offline"}[id == online.ClientID], "stream_len": len(data), "hex_head": fmt.Sprintf("%x", data[:minC05i(len(data), 300)])})
+		k := c05WireSeq.Add(1)
+		w := &c05Wire{data: data, keep: true, remote: vk.FakeAddr{Net: "tcp", Str: fmt.Sprintf("10.%d.%d.%d:42000", 180+(k>>16)&31, (k>>8)&255, k&255)}}
+		res := c05PumpW(node, w)
+		run.Eval(1)
+		run.Count("packets_dispatched", int64(res.Dispatched))
+		if strings.HasPrefix(res.Panic, "harness:") {
+			run.Count("harness_errors", 1)
+			return true
+		}
+		if res.Panic != "" {
+			run.Violation("C05:handshake-seq|panic|"+class+"|"+c05NumRe.ReplaceAllString(c05Clip(res.Panic, 60), "N")+"|at="+res.Stack,
+				map[string]any{"panic": res.Panic, "variant_class": class, "connection_type": ctype, "packets_dispatched_before": res.Dispatched, "stream_len": len(data), "stream_hex_head": fmt.Sprintf("%x", data[:minC05i(len(data), 400)])})
+			node = c05NewNode(t)
+			online = node.NewClient("")
+			o2 := node.NewClient("")
+			offID, offSecret = o2.ClientID, o2.Secret
+			o2.CloseByPeer()
+			return run.Violations() < 8
+		}
+		if wantChallenge {
+			got := false
+			for _, rp := range c05Replies(w.out) {
+				if rp.Challenge != "" {
+					got = true
+				}
+			}
+			if got {
+				run.Count("sequences_with_challenge_issued", 1)
+				run.Distinct(class + "|" + ctype)
+			} else {
+				run.Count("sequences_without_challenge", 1)
+			}
+		}
+		return true
+	}
+	hs := func(id int64, ctype, resp string, extra map[string]any) []byte {
+		m := map[string]any{"client_id": id, "version": "3.0", "protocol": "tcp"}
+		if ctype != "" {
+			m["connection_type"] = ctype
+		}
+		if resp != "" {
+			m["challenge_response"] = resp
+		}
+		for k, v := range extra {
+			m[k] = v
+		}
+		return gen.Frame(0x01, js(m))
+	}
+	ok := true
+	for i, v := range vs {
+		if !ok {
+			break
+		}
+		ctype := []string{"control", "tunnel", ""}[i%3]
+		id := online.ClientID
+		if i%4 == 3 {
+			id = offID
+		}
+		resp := strings.NewReplacer("\\n", "\n", "\\x00", "\x00", "\\u0000", "\x00").Replace(v.resp)
+		data := append(hs(id, ctype, "", nil), hs(id, ctype, resp, nil)...)
+		ok = serve(v.class, ctype, id, data, true)
+		if ok && v.class != "hex-len" || i%16 == 0 {
+			// step 2 twice, and step 2 without step 1
+			ok = ok && serve(v.class+"/twice", ctype, id, append(append(hs(id, ctype, "", nil), hs(id, ctype, resp, nil)...), hs(id, ctype, resp, nil)...), true)
+			ok = ok && serve(v.class+"/no-step1", ctype, id, hs(id, ctype, resp, nil), false)
+		}
+	}
+	// hostile values in the other string fields of step 2 / step 1
+	for _, f := range []string{"token", "version", "protocol", "connection_type"} {
+		for _, x := range hostileStr {
+			if !ok {
+				break
+			}
+			x = strings.NewReplacer("\\x00", "\x00", "\\xff\\xfe", "\xff\xfe", "\\n", "\n").Replace(x)
+			id := online.ClientID
+			ok = serve("field2/"+f, "control", id, append(hs(id, "control", "", nil), hs(id, "control", hexOf(64, false), map[string]any{f: x})...), f != "connection_type" || true)
+			ok = ok && serve("field1/"+f, "control", id, append(hs(id, "control", "", map[string]any{f: x}), hs(id, "control", hexOf(64, false), nil)...), false)
+		}
+	}
+	// interactive: derived from the correct answer (the harness holds the offline client's secret)
+	for _, mk := range []struct {
+		class string
+		f     func(string) string
+	}{
+		{"correct-upper", strings.ToUpper},
+		{"correct+00", func(h string) string { return h + "00" }},
+		{"correct+correct", func(h string) string { return h + h }},
+		{"correct-truncated", func(h string) string { return h[:62] }},
+		{"correct-spaced", func(h string) string { return " " + h + " " }},
+		{"correct-x64", func(h string) string { return strings.Repeat(h, 64) }},
+	} {
+		if !ok {
+			break
+		}
+		for _, ctype := range []string{"control", "tunnel"} {
+			run.Case("handshake-seq|interactive/"+mk.class+"|"+ctype, nil)
+			c := node.MustConnect("")
+			var p string
+			func() {
+				defer func() {
+					if e := recover(); e != nil {
+						p = fmt.Sprint(e)
+						run.Violation("C05:handshake-seq|panic|interactive/"+mk.class+"|"+c05NumRe.ReplaceAllString(c05Clip(p, 60), "N")+"|at="+c05Frames(string(debug.Stack())), map[string]any{"panic": p, "connection_type": ctype})
+					}
+				}()
+				r1, _ := c.Phase1(offID, ctype)
+				if r1 != nil && r1.Challenge != "" {
+					run.Count("sequences_with_challenge_issued", 1)
+					run.Count("interactive_sequences", 1)
+					run.Distinct("interactive/" + mk.class + "|" + ctype)
+					r2, _ := c.Phase2(offID, mk.f(HMACResp(offSecret, r1.Challenge)), ctype)
+					if r2 != nil && r2.Success {
+						run.Count("interactive_accepted", 1)
+					}
+				}
+			}()
+			run.Eval(1)
+			if p != "" {
+				ok = false
+				break
+			}
+			c.CloseByPeer()
+		}
+	}
+	if ok {
+		run.Count("completed", 1)
+	}
+	run.Floor("completed", 1)
+	run.Floor("sequences_with_challenge_issued", int64(maxAll*9/10))
+	run.Floor("interactive_sequences", 10)
+}
+
+func minC05i(a, b int) int {
+	if a < b {
+		return a
+	}
+	return b
 }
